@@ -127,7 +127,15 @@ def e2e_oracle(load, s):
         if exc is not None or not okv:
             return (f'float-not-loaded:{s}', f'plain scalar {s!r} is a YAML 1.2 float but load gave {v!r} / {exc!r}')
         return None
-    # neither: must not come out as bool or float, and a bool/float resolution must not crash
+    # neither: "integer, null and timestamp typing is PyYAML's" -- what PyYAML's own loader resolves to one of those, yatiml's
+    # loader resolves to the same tag
+    import yaml
+    std = yaml.SafeLoader('').resolve(yaml.ScalarNode, s, (True, False))
+    if std in ('tag:yaml.org,2002:int', 'tag:yaml.org,2002:null', 'tag:yaml.org,2002:timestamp'):
+        got = load.loader('').resolve(yaml.ScalarNode, s, (True, False))
+        if got != std:
+            return (f'pyyaml-typing-changed:{std[18:]}', f'plain scalar {s!r} is a PyYAML {std[18:]} but yatiml resolves it to {got}')
+    # must not come out as bool or float, and a bool/float resolution must not crash
     if exc is not None:
         import yaml
         ld = load.loader('')
@@ -314,6 +322,8 @@ def search(ctx, broken, details, tie_res):
                     cands.append(tmpl[:i] + ch + tmpl[i + 1:])
                     cands.append(tmpl[:i] + ch + tmpl[i:])
             cands += [tmpl + ch for ch in odd]
+        cands += ['null', 'Null', 'NULL', '~', '0', '-7', '0x1F', '0o7', '017', '1_000', '1:30', '0b101', '2001-01-01', '2001-12-14t21:59:43.10-05:00',
+                  '2001-12-14 21:59:43.10 -5', 'nul', 'None', 'N', 'n', 'y', 'o', 'O']
         small = list('01.eE+-_:') + odd[:3]
         cands += [a + b for a in small for b in small] + [a + b + c for a in small for b in small for c in small]
         for cand in cands:
